@@ -26,6 +26,52 @@ fn programs() -> Vec<String> {
     v
 }
 
+/// random well-typed programs: DINT / BOOL variables, an array, a struct, an FB instance, a function; every statement kind,
+/// conditions and right-hand sides that index arrays with variables, read fields and FB outputs, call the function
+fn gen_program(rng: &mut Rng) -> String {
+    fn iexpr(rng: &mut Rng, d: u32) -> String {
+        if d == 0 || rng.chance(2, 5) {
+            return match rng.below(9) { 0 => "a".into(), 1 => "b".into(), 2 => "i".into(), 3 => format!("{}", rng.range(0, 9)), 4 => "arr[i]".into(), 5 => format!("arr[{}]", rng.range(0, 7)),
+                                        6 => "pt.x".into(), 7 => "cnt.n".into(), _ => "arr[(i + 1) MOD 8]".into() };
+        }
+        match rng.below(6) { 0 => format!("({} + {})", iexpr(rng, d - 1), iexpr(rng, d - 1)), 1 => format!("({} - {})", iexpr(rng, d - 1), iexpr(rng, d - 1)),
+                             2 => format!("({} * 2)", iexpr(rng, d - 1)), 3 => format!("Twice({})", iexpr(rng, d - 1)), 4 => format!("(-{})", iexpr(rng, d - 1)), _ => format!("({} MOD 7)", iexpr(rng, d - 1)) }
+    }
+    fn bexpr(rng: &mut Rng, d: u32) -> String {
+        if d == 0 || rng.chance(1, 3) {
+            return match rng.below(6) { 0 => "f".into(), 1 => "TRUE".into(), 2 => format!("{} > {}", iexpr(rng, 1), iexpr(rng, 1)), 3 => format!("arr[i] > {}", rng.range(0, 5)),
+                                        4 => format!("{} = {}", iexpr(rng, 1), iexpr(rng, 1)), _ => format!("pt.y <= {}", iexpr(rng, 1)) };
+        }
+        match rng.below(4) { 0 => format!("({} AND {})", bexpr(rng, d - 1), bexpr(rng, d - 1)), 1 => format!("({} OR {})", bexpr(rng, d - 1), bexpr(rng, d - 1)), 2 => format!("NOT ({})", bexpr(rng, d - 1)), _ => format!("({} XOR f)", bexpr(rng, d - 1)) }
+    }
+    fn block(rng: &mut Rng, d: u32, in_loop: bool, ind: usize) -> String {
+        let mut s = String::new();
+        let pad = " ".repeat(ind);
+        for _ in 0..rng.range(1, 3) {
+            match if d == 0 { rng.below(5) } else { rng.below(13) } {
+                0 => s += &format!("{pad}a := {};\n", iexpr(rng, 2)),
+                1 => s += &format!("{pad}arr[i] := {};\n", iexpr(rng, 2)),
+                2 => s += &format!("{pad}pt.x := {};\n", iexpr(rng, 1)),
+                3 => s += &format!("{pad}f := {};\n", bexpr(rng, 2)),
+                4 => s += &format!("{pad}cnt(up := {});\n{pad}b := cnt.n;\n", bexpr(rng, 1)),
+                5 | 6 => { s += &format!("{pad}IF {} THEN\n{}", bexpr(rng, 2), block(rng, d - 1, in_loop, ind + 2)); if rng.chance(1, 2) { s += &format!("{pad}ELSIF {} THEN\n{}", bexpr(rng, 1), block(rng, d - 1, in_loop, ind + 2)); } if rng.chance(1, 2) { s += &format!("{pad}ELSE\n{}", block(rng, d - 1, in_loop, ind + 2)); } s += &format!("{pad}END_IF;\n"); }
+                7 => s += &format!("{pad}CASE {} OF\n{pad} 0: a := 1;\n{pad} 1, 2: b := 2;\n{pad} 3..5:\n{}{pad}ELSE\n{}{pad}END_CASE;\n", iexpr(rng, 1), block(rng, d - 1, in_loop, ind + 2), block(rng, d - 1, in_loop, ind + 2)),
+                8 => s += &format!("{pad}FOR i := 0 TO {} DO\n{}{pad}END_FOR;\n", rng.range(0, 7), block(rng, d - 1, true, ind + 2)),
+                9 => s += &format!("{pad}k := 0;\n{pad}WHILE k < 3 AND {} DO\n{pad}  k := k + 1;\n{}{pad}END_WHILE;\n", bexpr(rng, 1), block(rng, d - 1, true, ind + 2)),
+                10 => s += &format!("{pad}k := 0;\n{pad}REPEAT\n{pad}  k := k + 1;\n{}{pad}UNTIL k >= 3 OR {}\n{pad}END_REPEAT;\n", block(rng, d - 1, true, ind + 2), bexpr(rng, 1)),
+                11 => if in_loop { s += &format!("{pad}IF {} THEN\n{pad}  {};\n{pad}END_IF;\n", bexpr(rng, 1), if rng.chance(1, 2) { "EXIT" } else { "CONTINUE" }); } else { s += &format!("{pad}b := {};\n", iexpr(rng, 2)); },
+                _ => s += &format!("{pad}s := CONCAT(s, 'x');\n{pad}b := LEN(s);\n"),
+            }
+        }
+        s
+    }
+    let body = block(rng, 3, false, 2);
+    let fb_body = block(rng, 2, false, 2);
+    format!("TYPE Pt : STRUCT\n  x : DINT;\n  y : DINT;\nEND_STRUCT\nEND_TYPE\nFUNCTION Twice : DINT\nVAR_INPUT v : DINT; END_VAR\nTwice := v * 2;\nEND_FUNCTION\nFUNCTION_BLOCK Cnt\nVAR_INPUT up : BOOL; END_VAR\nVAR_OUTPUT n : DINT; END_VAR\nIF up THEN\n  n := n + 1;\nEND_IF;\nEND_FUNCTION_BLOCK\n\
+FUNCTION_BLOCK Worker\nVAR\n  a, b, i, k : DINT;\n  f : BOOL;\n  arr : ARRAY[0..7] OF DINT;\n  pt : Pt;\n  cnt : Cnt;\n  s : STRING;\nEND_VAR\n{fb_body}END_FUNCTION_BLOCK\n\
+PROGRAM Main\nVAR\n  a, b, i, k : DINT;\n  f : BOOL;\n  arr : ARRAY[0..7] OF DINT;\n  pt : Pt;\n  cnt : Cnt;\n  w : Worker;\n  s : STRING;\nEND_VAR\nw();\n{body}END_PROGRAM\n")
+}
+
 fn le32(b: &[u8], o: usize) -> u32 { u32::from_le_bytes([b[o], b[o + 1], b[o + 2], b[o + 3]]) }
 fn put32(b: &mut [u8], o: usize, v: u32) { b[o..o + 4].copy_from_slice(&v.to_le_bytes()); }
 fn fix_crc(b: &mut Vec<u8>) {
@@ -118,6 +164,14 @@ fn main() {
             let mut rng = Rng::new(vh::seed_from_env());
             let bases: Vec<Vec<u8>> = programs().iter().map(|p| bytecode_bytes_from_source(p).unwrap_or_else(|e| panic!("compile: {e:?}"))).collect();
             for (i, b) in bases.iter().enumerate() { writeln!(out, "e{i} : {}", hex(b)).unwrap(); }
+            // "every container the compiler emits validates": random well-typed programs; a compile failure is reported as case x…
+            for i in 0..(count / 6).max(8) {
+                let src = gen_program(&mut rng);
+                match bytecode_bytes_from_source(&src) {
+                    Ok(b) => writeln!(out, "e{} : {}", 100 + i, hex(&b)).unwrap(),
+                    Err(e) => { if std::env::var("VERIF_SHOW_PANIC").is_ok() { eprintln!("{src}\n{e:?}"); } writeln!(out, "x{} : {}", 100 + i, hex(src.as_bytes())).unwrap() }
+                }
+            }
             // the same modules with the CRC flag cleared and with an older minor version are also emitted-equivalent inputs for decode
             for k in 0..count {
                 let base = rng.pick(&bases).clone();
@@ -168,6 +222,7 @@ fn main() {
                 writeln!(out, "BEGIN {k}").unwrap(); out.flush().unwrap();
                 let bytes = unhex(hx.trim());
                 let t0 = std::time::Instant::now();
+                if id.trim().starts_with('x') { writeln!(out, "{} : {} : 0 22 0 3 3 3 3 0 | 0", id.trim(), hx.trim()).unwrap(); out.flush().unwrap(); continue; }
                 let r = eval_case(id.trim(), &bytes);
                 writeln!(out, "{} : {} : {r} | {}", id.trim(), hx.trim(), t0.elapsed().as_millis()).unwrap(); out.flush().unwrap();
             }
